@@ -3,6 +3,7 @@ package main
 import (
 	"math/rand"
 	"fmt"
+	"sort"
 
 	"verifharness/enc"
 	. "verifharness/kobj"
@@ -609,6 +610,39 @@ func runC17(c *Ctx) {
 			}
 		}
 		c.Rep.Evaluations += pairs
+		// the assumption under SelectorOrder.v (possible_build): whatever order a
+		// build comes out in, it is a key-sorted arrangement of the same thirteen-odd
+		// requirements.  Asked of apimachinery directly (the filter keeps its
+		// selector private): a build that is not one is outside the model.
+		{
+			canon := func(k string, op string, vals []string) string { return fmt.Sprint(k, "|", op, "|", vals) }
+			var want []string
+			for k := 0; k < 12; k++ {
+				sel, err := metav1.LabelSelectorAsSelector(big.Go())
+				reqs, _ := sel.Requirements()
+				if err != nil {
+					c.Violation("", "model assumption (SelectorOrder.possible_build): LabelSelectorAsSelector fails on the D14 selector", map[string]interface{}{"filter": bf.Enc().String()})
+					break
+				}
+				var got []string
+				sortedByKey := true
+				for i, r := range reqs {
+					got = append(got, canon(r.Key(), string(r.Operator()), r.Values().List()))
+					if i > 0 && reqs[i-1].Key() > r.Key() {
+						sortedByKey = false
+					}
+				}
+				sort.Strings(got)
+				if want == nil {
+					want = got
+				}
+				if !sortedByKey || fmt.Sprint(got) != fmt.Sprint(want) || len(got) != len(big.Labels)+len(big.Exprs) {
+					c.Violation("", "model assumption (SelectorOrder.possible_build): a build of the D14 selector is not a key-sorted arrangement of its requirements", map[string]interface{}{"filter": bf.Enc().String(), "requirements": got, "sorted_by_key": sortedByKey})
+					break
+				}
+			}
+			c.Rep.Evaluations += 12
+		}
 		if unequal > 0 {
 			c.KnownFinding("D14-large-selector-built-twice-unequal", fmt.Sprintf("a LabelSelector filter with more than twelve requirements, two of them on one key, built twice from the same selector compares unequal (%d of %d pairs): comparable filters built twice from the same arguments are not always equal", unequal, pairs),
 				map[string]interface{}{"filter": bf.Enc().String(), "unequal_pairs": unequal, "pairs": pairs})
